@@ -460,7 +460,21 @@ func (c *ExecCtx) execGo(st *State, x *ast.GoStmt) {
 					c.eval(st, sel.X)
 				}
 			}
-			c.evalArgs(st, call, sig, nil)
+			args := c.evalArgs(st, call, sig, nil)
+			// ghost anchors "go(name)"
+			if spec := c.ownSpec(); spec != nil {
+				name := calleeName(call)
+				for _, g := range spec.Ghosts {
+					if g.Anchor == "go("+name+")" {
+						g.used = true
+						binds := map[string]Val{}
+						for i, a := range args {
+							binds[fmt.Sprintf("ʃarg%d", i)] = a
+						}
+						c.execGhostWith(st, g, call.Pos(), binds)
+					}
+				}
+			}
 		}
 	}
 	c.u.eng.abstracted["go:"+exprString(call.Fun)] = true
